@@ -3,5 +3,6 @@
 pub mod codec;
 pub mod fft;
 pub mod field;
+pub mod keygen;
 pub mod sampler;
 pub mod specverify;
